@@ -49,7 +49,7 @@ pub uninterp spec fn arr_ref<T, const N: usize>(a: &[T; N]) -> &[T];
 pub uninterp spec fn str_ref(b: &str) -> &[u8];
 pub uninterp spec fn string_ref(b: &String) -> &[u8];
 /// UTF-8 encoding of a character sequence (total; identity on ASCII, injective, a monoid morphism: see trusted.rs)
-pub uninterp spec fn utf8(c: Seq<char>) -> Seq<u8>;
+pub open spec fn utf8(c: Seq<char>) -> Seq<u8> { vstd::utf8::encode_utf8(c) }
 /// contents of a `Bytes`
 pub open spec fn bview(b: &Bytes) -> Seq<u8> { bytes_ref(b)@ }
 /// contents of a `BytesMut`
